@@ -82,6 +82,9 @@ pub fn base_classes(sc: &Scenario, out: &Outcome) -> Vec<&'static str> {
     if sc.max_pred == 0 {
         c.push("lockstep");
     }
+    if sc.own_snapshots {
+        c.push("game_keeps_own_snapshots");
+    }
     if sc.max_pred == 1 {
         c.push("window1");
     }
